@@ -14,7 +14,7 @@ LEVEL = "model_checking"
 TECHNIQUE = "(a) breadth-first explicit-state search over constructor / encode / decode / discard histories over pairs and triples of command classes with a differential oracle (same operation alone); (b) preemption-bounded exhaustive enumeration of thread schedules at source-line granularity under a sys.settrace + semaphore-baton scheduler owning real threads"
 RULE = ("(a) pool of 10 classes chosen to collide (6/10/12/16-byte CDBs, inherited layout, constructors that raise after touching shared state, "
         "mutable arguments); operations new(X, 2 argument variants), new-invalid(X), X.unmarshall_cdb, X.marshall_cdb, repeat-marshal with the same "
-        "caller objects, del; BFS with de-duplication on a digest of class-level state + live objects, all pairs to depth 4 (thorough 5) and all "
+        "caller objects, a caller-owned segment dictionary re-used after the caller changed its kind (also after a refused construction), first-use in 13 fresh processes (see C02), del; BFS with de-duplication on a digest of class-level state + live objects, all pairs to depth 4 (thorough 5) and all "
         "triples to depth 3 (thorough 4); in every state every live object and every class's codec is compared with what the same call yields "
         "alone; decode histories A,B,A over every ordered pair of 20 response kinds in a fresh process (result for A identical before and after B). (b) 2 threads (thorough: also 3), each 'c=X(..); bytes(c.cdb); X.unmarshall_cdb; X.marshall_cdb; len(c.datain)', every ordered "
         "pair of pool classes, plus decoder threads (standard INQUIRY, VPD 83h, MODE SENSE(10), REPORT LUNS, RTPG, READ FULL STATUS, READ ELEMENT STATUS, sense) in all ordered pairs, all schedules with at most 1 preemption at every traced source line of the library (thorough: also all schedules with at most 2 preemptions at function-entry granularity for the pairs over 5 classes of different CDB lengths, and 2 preemptions at "
@@ -89,6 +89,8 @@ def partitions(tier):
         for b in POOL:
             parts.append(["sched", [a, b]])
     parts += [["daba", n] for n in DECODER_CASES if DECODER_CASES[n] is not None]
+    from vf.props import c02
+    parts += [["first", i] for i in range(c02.N_FIRST)]
     decs = list(THREAD_DECODERS)
     dq = decs if tier != "quick" else ["dec:inquiry_std", "dec:vpd83", "dec:rtpg", "dec:sense", "dec:prfull"]
     for a in dq:
@@ -255,6 +257,31 @@ def run_history(names, hist):
                                 % (where, a[0].hex(), solo(name, 1)[0][0].hex(), a[3].hex()[:40], solo(name, 1)[0][3].hex()[:40])))
             except Exception as e:   # noqa: BLE001
                 out.append(("repeat_raises/%s" % name, "%s: raised %s: %s" % (where, type(e).__name__, e)))
+        elif kind == "xre":
+            # one caller-owned segment dictionary used for a command (or a refused construction), then turned by the caller into a
+            # descriptor of the other size family and used again: the second command must equal one built from a dictionary no
+            # command has seen (whatever the library wrote into the caller's dictionary must not be read back)
+            ver = 4 if name.endswith("4") else 5
+            src, dst = ("source_target_descriptor_id", "destination_target_descriptor_id") if ver == 4 else ("source_cscd_descriptor_id", "destination_cscd_descriptor_id")
+            first, second = ((0x0B, 0x02), (0x02, 0x0B), (0x0B, 0x02))[op[2]]
+            seg = {"descriptor_type_code": first, src: 1, dst: 2, "block_device_number_of_blocks": 9}
+            if op[2] == 2:
+                seg["bogus_key"] = 1
+            try:
+                cls(opcode_for(name), segment_descriptor_list=[seg])
+            except Exception:   # noqa: BLE001
+                pass
+            seg.pop("bogus_key", None)
+            seg["descriptor_type_code"] = second
+            user = {"descriptor_type_code": second, src: 1, dst: 2, "block_device_number_of_blocks": 9}
+            try:
+                a = observe_obj(cls(opcode_for(name), segment_descriptor_list=[seg]))
+                b = observe_obj(cls(opcode_for(name), segment_descriptor_list=[user]))
+                if a != b:
+                    out.append(("reused_argument/%s" % name, "%s: a segment dictionary used before (kind %#04x) and changed by the caller to kind %#04x builds %s, a fresh dictionary with the same entries %s"
+                                % (where, first, second, a[3].hex()[:80], b[3].hex()[:80])))
+            except Exception as e:   # noqa: BLE001
+                out.append(("reused_argument_raises/%s" % name, "%s: raised %s: %s" % (where, type(e).__name__, e)))
         elif kind == "del":
             if live:
                 live.pop(0)
@@ -276,6 +303,8 @@ def ops_for(names):
         ops.append(("enc", n))
         if n in ("ExtendedCopy4", "ExtendedCopy5", "WriteSame16"):
             ops.append(("rep", n))
+        if n in ("ExtendedCopy4", "ExtendedCopy5"):
+            ops += [("xre", n, 0), ("xre", n, 1), ("xre", n, 2)]
     ops.append(("del", names[0]))
     return ops
 
@@ -428,6 +457,9 @@ def switch_points(x):
 
 
 def run_case(case):
+    if case[0] == "first":
+        from vf.props import c02
+        return [x for (_, _, v) in c02.run_first_use(case[1]) for x in v]
     if case[0] == "daba":
         from vf.props import c04
         return [("decode_history/" + k.split("/", 1)[1], w)
@@ -459,6 +491,17 @@ MAXTASKS = 1      # fresh forked worker per partition (the decode histories need
 def run_partition(part, tier, seed):
     acc = Acc(seed)
     b = bounds(tier)
+    if part[0] == "first":
+        from vf.props import c02
+        case = ["first", part[1]]
+        for (n_, bk, v) in c02.run_first_use(part[1]):
+            acc.case(case, nontrivial=True, key=("first", part[1], n_, bk))
+            acc.transitions += 1
+            for k, w in v:
+                acc.violation(k, w, case)
+            acc.outcome(("first", part[1], n_, bk, tuple(k for k, _ in v)))
+        acc.traces += 1
+        return acc
     if part[0] == "daba":
         # decode histories in a fresh process: A first (reference), then B, A, B', A, ... over all 20 response kinds:
         # what A decodes to must not depend on anything decoded in between
